@@ -39,6 +39,11 @@ AREAS = [
         (None, "remove_and_check_hmacs", "C17_fn_lss_remove_and_check_hmacs"),
     ]),
     # C16: the on-disk record format of the redb store (version ‖ value), the pure part around the redb calls
+    # the type conversions of the LSS front end (inside async glue that is not translated): what is sent / taken over
+    ("Frontend", "vls-frontend/src/external_persist/lss.rs", [
+        ("Client", "put#map", "C17_fn_frontend_put_conv"),
+        ("Client", "get#map", "C17_fn_frontend_get_conv"),
+    ]),
     ("Redb", "vls-persist/src/kvv/redb.rs", [
         ("RedbKVVStore", "encode_vv", "C16_gen_encode_vv"),
         ("RedbKVVStore", "decode_vv", "C16_gen_decode_vv"),
@@ -47,12 +52,19 @@ AREAS = [
 # area -> (property, generated file, Props file with the tying theorems); default: C17 / HmacFn.lean / C17Fn.lean
 AREA_OUT = {"Redb": ("C16", "KvvBytesFn.lean", "C16Gen.lean")}
 # struct declarations read from other files; functions of other areas callable by bare name
-STRUCT_FILES = {"Lss": ["lightning-storage-server/lib/src/model.rs"], "LssDrv": ["lightning-storage-server/lib/src/model.rs"]}
-IMPORT_FNS = {"LssDrv": "Lss"}
+STRUCT_FILES = {"Lss": ["lightning-storage-server/lib/src/model.rs"], "LssDrv": ["lightning-storage-server/lib/src/model.rs"],
+                "Frontend": ["lightning-storage-server/lib/src/model.rs"]}
+IMPORT_FNS = {"LssDrv": "Lss", "Frontend": "Lss"}
 # functions that are not translated but passed in as explicit parameters (trusted boundary)
 EXTERNAL_FNS = {"crypt_value": (["bytes", "bytes", "i64", "bytes"], 3)}   # (param kinds, index of the &mut [u8] that is replaced by the result)
 # result types of methods of `&dyn Trait` parameters (declared in other files; the value becomes an explicit parameter)
 DYN_METHODS = {"get_secure_random_bytes": "bytes"}
+# `use a::B as C` renames of structs
+STRUCT_ALIAS = {"LssValue": "Value"}
+# closures inside functions that cannot be translated as a whole (async glue): "<fn>#<method the closure is passed to>"
+# -> (parameter types, result type); the closure is emitted as the function `<fn>_<method>`
+CLOSURES = {("Client", "put#map"): (["(String, (u64, Vec<u8>))"], "(String, Value)"),
+            ("Client", "get#map"): (["(String, Value)"], "(String, (u64, Vec<u8>))")}
 
 
 class HmErr(Exception):
@@ -313,7 +325,10 @@ class Parser:
         if self.pkk() == "p" and self.pk() == "*":
             self.nx(); return self.unary(ns)
         if self.pkk() == "p" and self.pk() in ("!", "-"): self.err("unary %s is outside the subset" % self.pk())
-        return self.postfix(self.primary(ns))
+        e = self.postfix(self.primary(ns))
+        while self.pk() == "as" and self.pkk() == "id":
+            self.nx(); e = ("cast", e, self.type_())
+        return e
 
     def args(self):
         self.exp("("); a = []
@@ -361,9 +376,13 @@ class Parser:
             self.exp("]"); return ("arr", es)
         if s == "|":
             a = self.i; self.nx()
-            while not self.acc("|"): self.nx()
+            params = []
+            while not self.acc("|"):
+                params.append(self.pattern())
+                if self.acc(":"): self.type_()
+                if not self.acc(","): self.exp("|"); break
             body = self.expr()
-            return ("closure", " ".join(x[1] for x in self.t[a:self.i]), body)
+            return ("closure", " ".join(x[1] for x in self.t[a:self.i]), body, params)
         if s == "if":
             self.nx()
             if self.pk() == "let": self.err("if let")
@@ -429,7 +448,7 @@ class Area:
     def resolve(self, t, impl=None):
         k = t[0]
         if k == "named":
-            n = impl if t[1] == "Self" else t[1]
+            n = impl if t[1] == "Self" else STRUCT_ALIAS.get(t[1], t[1])
             if n in self.structs:
                 if n not in self.used_structs: self.used_structs.append(n)
                 return ("struct", n)
@@ -481,6 +500,11 @@ class Area:
         if key in self.fns: return self.fns[key]
         if key in self.failed: raise HmErr(self.failed[key])
         try:
+            if "#" in name:
+                f = self.closure_fn(impl, name)
+                info = Tr(self, f).run()
+                self.fns[key] = info; self.order.append(key)
+                return info
             k = self.idx.fns.get(key)
             if k is None: raise HmErr("function not found")
             if k == "ambiguous": raise HmErr("ambiguous function name")
@@ -492,6 +516,31 @@ class Area:
             self.failed[key] = str(e); raise
         self.fns[key] = info; self.order.append(key)
         return info
+
+    def closure_fn(self, impl, name):
+        """the single closure passed to `.<method>(..)` inside function `<fn>` as a function of its own"""
+        base, meth = name.split("#")
+        k = self.idx.fns.get((impl, base))
+        if not isinstance(k, int): raise HmErr("function %s not found" % base)
+        t = self.idx.t
+        j = k
+        while t[j][1] != "{": j += 1
+        p = Parser(t, j, self.rel); p.group(); end = p.i
+        hits = [i for i in range(j, end - 3) if t[i][1] == "." and t[i + 1][1] == meth and t[i + 2][1] == "(" and t[i + 3][1] == "|"]
+        if len(hits) != 1: raise HmErr("%d closures passed to .%s in %s (exactly one expected)" % (len(hits), meth, base))
+        p = Parser(t, hits[0] + 3, self.rel)
+        c = p.primary(False)
+        if p.pk() != ")": raise HmErr("closure is not the only argument of .%s" % meth)
+        ptys, rty = CLOSURES[(impl, name)]
+        if len(c[3]) != len(ptys): raise HmErr("closure arity")
+        def ty(sx):
+            q = Parser(lex(sx) + [("eof", "", 0)], 0, "<spec>"); return q.type_()
+        params, stmts = [], []
+        for i, (pat, sx) in enumerate(zip(c[3], ptys)):
+            params.append(("a%d" % i, ty(sx), False))
+            stmts.append(("let", pat, ("path", ["a%d" % i]), [], t[hits[0]][2]))
+        return {"name": "%s_%s" % (base, meth), "params": params, "self": None, "ret": ty(rty), "body": (stmts, c[2]),
+                "impl": impl, "text": "fn %s ( .. ) { .. . %s ( %s ) .. }" % (base, meth, c[1]), "line": t[hits[0]][2]}
 
     def lookup_fn(self, name):
         """callee by bare name: this area, then the imported one"""
@@ -820,7 +869,7 @@ class Tr:
             n = len(bt[1]); i = e[2]
             return base + ".2" * i + (".1" if i < n - 1 else ""), bt[1][i]
         if k == "struct":
-            n = self.impl if e[1] == "Self" else e[1]
+            n = self.impl if e[1] == "Self" else STRUCT_ALIAS.get(e[1], e[1])
             if n not in self.a.structs: raise HmErr("struct literal of unknown %s" % n)
             self.a.resolve(("named", n))
             if sorted(f for f, _ in e[2]) != sorted(f for f, _ in self.a.structs[n]): raise HmErr("struct literal does not set every field")
@@ -850,6 +899,13 @@ class Tr:
                 pre.append(("bind", v, "Rs.usub %s %s" % (paren(l), paren(r))))
                 return v, lt_
             raise HmErr("operator %s on %r" % (op, lt_))
+        if k == "cast":
+            term, t = self.expr(e[1], env, pre)
+            to = self.a.resolve(e[2], self.impl)
+            if t == to: return term, t
+            if t == ("u64",) and to == ("i64",): return "(Rs.itrunc 64 (Int.ofNat %s))" % term, to      # two's complement
+            if t == ("i64",) and to == ("u64",): return "(Rs.utruncI Rs.U64_MAX %s)" % term, to
+            raise HmErr("cast %r as %r is outside the subset" % (t, to))
         if k == "slice":
             base, bt = self.expr(e[1], env, pre)
             if bt != ("bytes",): raise HmErr("slice of a non-byte-string")
